@@ -1,2 +1,602 @@
-(* Proofs/PayloadProofs.v -- in progress *)
+(* Proofs/PayloadProofs.v -- invariants of Model/Payload.v and the lemmas behind Props/C10pl.v *)
 From MV Require Import Base.Prelude Base.Res Model.Payload.
+
+Ltac proj := cbn [items ch_len f_eof f_error f_need_read ch_err max_buf recv_reg
+                  set_items set_eof set_errflag set_need_read set_err set_recv
+                  md pl rd got woken set_pl set_rd set_got set_woken fst snd] in *.
+
+(* ------------------------------------------------------------------ the channel *)
+Definition sum_len (l : list bytes) : N := fold_right (fun d a => len d + a) 0 l.
+
+Lemma sum_len_cons d l : sum_len (d :: l) = len d + sum_len l.
+Proof. reflexivity. Qed.
+
+Lemma sum_len_app l d : sum_len (l ++ [d]) = sum_len l + len d.
+Proof.
+  induction l as [|h t IH]; cbn [app]; rewrite ?sum_len_cons; [cbn [sum_len fold_right]; lia|].
+  rewrite IH. lia.
+Qed.
+
+(* `len` is the number of buffered bytes *)
+Definition chan_ok (c : chan) : Prop := ch_len c = sum_len (items c).
+
+Definition same_flags (c c' : chan) : Prop :=
+  f_eof c' = f_eof c /\ f_error c' = f_error c /\ ch_err c' = ch_err c /\ max_buf c' = max_buf c.
+
+(* c' is c with the front chunk d taken out *)
+Definition popped (c : chan) (d : bytes) (c' : chan) : Prop :=
+  items c = d :: items c' /\ ch_len c' = ch_len c - len d /\ same_flags c c' /\ recv_reg c' = recv_reg c.
+
+(* c' is c with every chunk taken out *)
+Definition drained (c c' : chan) : Prop :=
+  items c' = [] /\ ch_len c' = 0 /\ same_flags c c' /\ recv_reg c' = recv_reg c.
+
+Lemma recv_wake_eq c : recv_wake c = (set_recv c false, recv_reg c).
+Proof. destruct c as [i l e r n x m g]. unfold recv_wake, set_recv. proj. destruct g; reflexivity. Qed.
+
+Lemma feed_data_spec c d :
+  exists c', feed_data c d = (c', recv_reg c) /\ items c' = items c ++ [d] /\
+             ch_len c' = ch_len c + len d /\ same_flags c c' /\ recv_reg c' = false.
+Proof.
+  unfold feed_data. rewrite recv_wake_eq. proj.
+  destruct (max_buf c <=? ch_len c + len d); eexists; (split; [reflexivity|]); proj;
+    unfold same_flags; proj; repeat split.
+Qed.
+
+Lemma feed_eof_spec c :
+  exists c', feed_eof c = (c', recv_reg c) /\ items c' = items c /\ ch_len c' = ch_len c /\
+             f_eof c' = true /\ f_error c' = f_error c /\ ch_err c' = ch_err c /\
+             max_buf c' = max_buf c /\ recv_reg c' = false.
+Proof. unfold feed_eof. rewrite recv_wake_eq. eexists. split; [reflexivity|]. proj. repeat split. Qed.
+
+Lemma set_error_spec c e :
+  exists c', set_error c e = (c', recv_reg c) /\ items c' = items c /\ ch_len c' = ch_len c /\
+             f_eof c' = f_eof c /\ f_error c' = true /\ ch_err c' = Some e /\
+             max_buf c' = max_buf c /\ recv_reg c' = false.
+Proof. unfold set_error. rewrite recv_wake_eq. eexists. split; [reflexivity|]. proj. repeat split. Qed.
+
+Lemma poll_read_some c d r :
+  items c = d :: r -> len d <= ch_len c ->
+  exists c1, poll_read c = Ok (RSome d, c1) /\ popped c d c1 /\ items c1 = r.
+Proof.
+  intros Hi Hl. unfold poll_read, get_data. rewrite Hi. unfold sub_chk.
+  destruct (N.leb_spec (len d) (ch_len c)); [|lia]. cbn [bind].
+  destruct (ch_len c - len d <? _); eexists; (split; [reflexivity|]); unfold popped, same_flags; proj;
+    rewrite Hi; repeat split.
+Qed.
+
+Lemma poll_read_empty c :
+  items c = [] ->
+  poll_read c = match ch_err c with
+                | Some e => Ok (RErr e, set_eof (set_err c None))
+                | None => if f_eof c || f_error c then Ok (RNone, c) else Ok (RPending, set_recv c true)
+                end.
+Proof. intros Hi. unfold poll_read, get_data. rewrite Hi. reflexivity. Qed.
+
+Lemma chan_ok_front c d r : chan_ok c -> items c = d :: r -> len d <= ch_len c.
+Proof. unfold chan_ok. intros H Hi. rewrite H, Hi, sum_len_cons. lia. Qed.
+
+Lemma chan_ok_popped c d c1 : chan_ok c -> popped c d c1 -> chan_ok c1.
+Proof.
+  unfold chan_ok, popped. intros H (Hi & Hl & _). rewrite Hl, H, Hi, sum_len_cons. lia.
+Qed.
+
+Lemma chan_ok_drained c c0 : drained c c0 -> chan_ok c0.
+Proof. unfold chan_ok, drained. intros (Hi & Hl & _). rewrite Hi, Hl. reflexivity. Qed.
+
+Lemma drained_refl c : chan_ok c -> items c = [] -> drained c c.
+Proof.
+  unfold chan_ok, drained, same_flags. intros H Hi. rewrite Hi in H. cbn in H. repeat split; assumption.
+Qed.
+
+Lemma drained_popped c d c1 c0 : popped c d c1 -> drained c1 c0 -> drained c c0.
+Proof.
+  unfold popped, drained, same_flags.
+  intros (_ & _ & (A1 & A2 & A3 & A4) & A5) (B1 & B2 & (B3 & B4 & B5 & B6) & B7).
+  repeat split; congruence.
+Qed.
+
+(* the result of the last read of read_all's loop, on a channel without chunks *)
+Definition all_end (c c0 : chan) (acc : bytes) : rstate * chan * list bytes :=
+  match ch_err c with
+  | Some e => (Done (Some e), set_eof (set_err c0 None), [])
+  | None =>
+    if f_eof c || f_error c then (Done None, c0, [acc])
+    else (AllLoop acc, set_recv c0 true, [])
+  end.
+
+Lemma all_loop_empty f c buf :
+  items c = [] -> all_loop (S f) c buf = Ok (all_end c c buf).
+Proof.
+  intros Hi. cbn [all_loop]. rewrite (poll_read_empty c Hi). unfold all_end.
+  destruct (ch_err c); cbn [bind]; [reflexivity|].
+  destruct (f_eof c || f_error c); reflexivity.
+Qed.
+
+Lemma all_loop_drain its : forall c buf fuel,
+  items c = its -> chan_ok c -> (length its < fuel)%nat ->
+  exists c0, drained c c0 /\
+             all_loop fuel c buf = Ok (all_end c c0 (buf ++ concat its)).
+Proof.
+  induction its as [|d r IH]; intros c buf fuel Hi Hok Hf.
+  - exists c. split; [apply drained_refl; assumption|].
+    destruct fuel as [|f]; [cbn in Hf; lia|].
+    cbn [concat]. rewrite app_nil_r. apply all_loop_empty. assumption.
+  - destruct fuel as [|f]; [cbn in Hf; lia|]. cbn [length] in Hf.
+    destruct (poll_read_some c d r Hi (chan_ok_front _ _ _ Hok Hi)) as (c1 & Hp & Hpop & Hi1).
+    cbn [all_loop]. rewrite Hp. cbn [bind].
+    destruct (IH c1 (buf ++ d) f Hi1 (chan_ok_popped _ _ _ Hok Hpop) ltac:(lia)) as (c0 & Hd & Hl).
+    exists c0. split; [eapply drained_popped; eassumption|].
+    rewrite Hl. cbn [concat]. rewrite app_assoc.
+    destruct Hpop as (_ & _ & (F1 & F2 & F3 & _) & _). unfold all_end. rewrite F1, F2, F3. reflexivity.
+Qed.
+
+Lemma all_loop_spec c buf :
+  chan_ok c ->
+  exists c0, drained c c0 /\
+             all_loop (loop_fuel c) c buf = Ok (all_end c c0 (buf ++ concat (items c))).
+Proof. intros Hok. apply all_loop_drain; auto. Qed.
+
+(* ------------------------------------------------------------------ one poll of the reader, explicitly *)
+Definition fresh (r : rstate) : bool := match r with AllNew | AllFirst => true | _ => false end.
+Definition acc_of (r : rstate) : bytes := match r with AllLoop b => b | _ => [] end.
+Definition is_all (r : rstate) : bool := match r with AllNew | AllFirst | AllLoop _ => true | _ => false end.
+Definition is_loop (r : rstate) : bool := match r with LoopIdle | LoopWait => true | _ => false end.
+Definition isnil {A} (l : list A) : bool := match l with [] => true | _ => false end.
+
+(* read_all polled on a stream: everything buffered is taken; the outcome depends on err / flags *)
+Definition all_out (r : rstate) (c c0 : chan) : rstate * chan * list bytes :=
+  match ch_err c with
+  | Some e => (Done (Some e), set_eof (set_err c0 None), [])
+  | None =>
+    if f_eof c || f_error c then
+      if fresh r && isnil (items c) then (Done (Some E_CONSUMED), c0, [])
+      else (Done None, c0, [acc_of r ++ concat (items c)])
+    else
+      (if fresh r && isnil (items c) then AllFirst else AllLoop (acc_of r ++ concat (items c)),
+       set_recv c0 true, [])
+  end.
+
+Lemma poll_spec_all s c :
+  pl s = PStream c -> chan_ok c -> is_all (rd s) = true ->
+  exists c0, drained c c0 /\
+    step s Poll = Ok (let '(r, c', g) := all_out (rd s) c c0 in mkSt (md s) (PStream c') r g false).
+Proof.
+  intros Hp Hok Ha. cbn [step]. unfold step_poll.
+  destruct (rd s) eqn:Er; try discriminate; proj; rewrite Hp.
+  1,2: cbn [all_first];
+    destruct (items c) as [|d r] eqn:Hi;
+    [ exists c; split; [apply drained_refl; assumption|];
+      rewrite (poll_read_empty c Hi); unfold all_out; rewrite Hi; cbn [fresh isnil andb];
+      destruct (ch_err c); cbn [bind]; [reflexivity|];
+      destruct (f_eof c || f_error c); reflexivity
+    | destruct (poll_read_some c d r Hi (chan_ok_front _ _ _ Hok Hi)) as (c1 & Hpr & Hpop & Hi1);
+      rewrite Hpr; cbn [bind];
+      destruct (all_loop_spec c1 d (chan_ok_popped _ _ _ Hok Hpop)) as (c0 & Hd & Hl);
+      exists c0; split; [eapply drained_popped; eassumption|];
+      rewrite Hl, Hi1; cbn [bind];
+      destruct Hpop as (_ & _ & (F1 & F2 & F3 & _) & _);
+      unfold all_out, all_end; rewrite Hi, F1, F2, F3; cbn [fresh isnil andb acc_of app concat];
+      destruct (ch_err c); [reflexivity|]; destruct (f_eof c || f_error c); reflexivity ].
+  destruct (all_loop_spec c buf Hok) as (c0 & Hd & Hl). exists c0. split; [assumption|].
+  rewrite Hl. cbn [bind]. unfold all_out, all_end. cbn [fresh andb acc_of].
+  destruct (ch_err c); [reflexivity|]. destruct (f_eof c || f_error c); reflexivity.
+Qed.
+
+Definition loop_out (s : st) (c : chan) : st :=
+  match ch_err c with
+  | Some e => mkSt (md s) (PStream (set_eof (set_err c None))) (Done (Some e)) (got s) false
+  | None =>
+    if f_eof c || f_error c then mkSt (md s) (PStream c) (Done None) (got s) false
+    else mkSt (md s) (PStream (set_recv c true)) LoopWait (got s) false
+  end.
+
+Lemma poll_spec_loop s c :
+  pl s = PStream c -> chan_ok c -> is_loop (rd s) = true ->
+  match items c with
+  | d :: _ => exists c1, popped c d c1 /\
+                         step s Poll = Ok (mkSt (md s) (PStream c1) LoopIdle (got s ++ [d]) false)
+  | [] => step s Poll = Ok (loop_out s c)
+  end.
+Proof.
+  intros Hp Hok Ha. cbn [step]. unfold step_poll.
+  destruct (rd s) eqn:Er; try discriminate; proj; rewrite Hp; cbn [pl_read].
+  all: destruct (items c) as [|d r] eqn:Hi;
+    [ rewrite (poll_read_empty c Hi); unfold loop_out;
+      destruct (ch_err c); cbn [bind]; [reflexivity|];
+      destruct (f_eof c || f_error c); reflexivity
+    | destruct (poll_read_some c d r Hi (chan_ok_front _ _ _ Hok Hi)) as (c1 & Hpr & Hpop & Hi1);
+      exists c1; split; [assumption|]; rewrite Hpr; reflexivity ].
+Qed.
+
+(* ------------------------------------------------------------------ the invariant of a streamed payload *)
+(* F: the chunks fed so far (first piece included); eof / err: feed_eof / set_error has been called *)
+Definition content (s : st) (c : chan) (F : list bytes) : Prop :=
+  match md s, rd s with
+  | MLoop, (LoopIdle | LoopWait | Done _) => got s ++ items c = F
+  | MAll, (AllNew | AllFirst) => got s = [] /\ items c = F
+  | MAll, AllLoop buf => got s = [] /\ buf ++ concat (items c) = concat F
+  | MAll, Done None => exists r, got s = [r] /\ r ++ concat (items c) = concat F
+  | MAll, Done (Some _) => got s = []
+  | _, _ => False
+  end.
+
+Record Inv (F : list bytes) (eof err : bool) (s : st) (c : chan) : Prop := mkInv {
+  i_pl : pl s = PStream c;
+  i_ok : chan_ok c;
+  i_content : content s c F;
+  i_eof1 : f_eof c = true -> eof = true \/ exists e, rd s = Done (Some e);
+  i_eof2 : eof = true -> f_eof c = true;
+  i_err1 : f_error c = true -> ch_err c <> None \/ exists e, rd s = Done (Some e);
+  i_err2 : err = false -> ch_err c = None /\ f_error c = false;
+  i_wake : borrowed (rd s) = true -> woken s = true \/ (recv_reg c = true /\ can_progress c = false)
+}.
+
+Lemma content_ext s s' c c' F F' :
+  md s' = md s -> rd s' = rd s -> got s' = got s ->
+  (forall g, g ++ items c = F -> g ++ items c' = F') ->
+  (forall b, b ++ concat (items c) = concat F -> b ++ concat (items c') = concat F') ->
+  content s c F -> content s' c' F'.
+Proof.
+  unfold content. intros -> -> -> H1 H2.
+  destruct (md s), (rd s) as [| | | | buf |[e|]]; auto.
+  - intros (A & B). split; [assumption|]. apply (H1 []). assumption.
+  - intros (A & B). split; [assumption|]. apply (H1 []). assumption.
+  - intros (A & B). split; auto.
+  - intros (r & A & B). exists r. split; auto.
+Qed.
+
+Lemma inv_sender F eof err s c c' w (F' : list bytes) (eof' err' : bool) :
+  Inv F eof err s c ->
+  chan_ok c' ->
+  (forall g, g ++ items c = F -> g ++ items c' = F') ->
+  (forall b, b ++ concat (items c) = concat F -> b ++ concat (items c') = concat F') ->
+  (f_eof c' = true -> f_eof c = true \/ eof' = true) -> (eof = true -> eof' = true) ->
+  (eof' = true -> f_eof c' = true) ->
+  (f_error c' = true -> (f_error c = true /\ ch_err c' = ch_err c) \/ ch_err c' <> None) ->
+  (err' = false -> err = false /\ ch_err c' = ch_err c /\ f_error c' = f_error c) ->
+  w = recv_reg c ->
+  Inv F' eof' err' (set_woken (set_pl s (PStream c')) (woken s || w)) c'.
+Proof.
+  intros I Hok H1 H2 E1 E2 E3 R1 R2 ->. constructor; proj.
+  - reflexivity.
+  - assumption.
+  - eapply content_ext; [| | | exact H1 | exact H2 | apply I]; reflexivity.
+  - intros H. destruct (E1 H) as [H'|H']; [|auto]. destruct (i_eof1 _ _ _ _ _ I H') as [X|X]; auto.
+  - assumption.
+  - intros H. destruct (R1 H) as [(H' & He)|H']; [|auto].
+    destruct (i_err1 _ _ _ _ _ I H') as [X|X]; [left; congruence|auto].
+  - intros H. destruct (R2 H) as (A & B & C). destruct (i_err2 _ _ _ _ _ I A) as (X & Y). split; congruence.
+  - intros H. left. destruct (i_wake _ _ _ _ _ I H) as [X|(X & _)]; rewrite X; [reflexivity|apply orb_true_r].
+Qed.
+
+Lemma concat_snoc (l : list bytes) d : concat (l ++ [d]) = concat l ++ d.
+Proof. rewrite concat_app. cbn [concat]. rewrite app_nil_r. reflexivity. Qed.
+
+Lemma inv_feed F eof err s c d :
+  Inv F eof err s c ->
+  exists c', step s (Feed d) = Ok (set_woken (set_pl s (PStream c')) (woken s || recv_reg c)) /\
+             Inv (F ++ [d]) eof err (set_woken (set_pl s (PStream c')) (woken s || recv_reg c)) c'.
+Proof.
+  intros I. destruct (feed_data_spec c d) as (c' & Hf & Hi & Hl & (A1 & A2 & A3 & A4) & Hr).
+  exists c'. split.
+  - cbn [step]. unfold on_chan. rewrite (i_pl _ _ _ _ _ I), Hf. reflexivity.
+  - eapply inv_sender; try exact I; try reflexivity.
+    + unfold chan_ok. rewrite Hl, Hi, sum_len_app, (i_ok _ _ _ _ _ I). reflexivity.
+    + intros g H. rewrite Hi, app_assoc, H. reflexivity.
+    + intros b H. rewrite Hi, !concat_snoc, app_assoc, H. reflexivity.
+    + rewrite A1. auto.
+    + auto.
+    + rewrite A1. apply I.
+    + rewrite A2, A3. auto.
+    + rewrite A2, A3. auto.
+Qed.
+
+Lemma inv_feed_eof F eof err s c :
+  Inv F eof err s c ->
+  exists c', step s FeedEof = Ok (set_woken (set_pl s (PStream c')) (woken s || recv_reg c)) /\
+             Inv F true err (set_woken (set_pl s (PStream c')) (woken s || recv_reg c)) c'.
+Proof.
+  intros I. destruct (feed_eof_spec c) as (c' & Hf & Hi & Hl & A1 & A2 & A3 & A4 & Hr).
+  exists c'. split.
+  - cbn [step]. unfold on_chan. rewrite (i_pl _ _ _ _ _ I), Hf. reflexivity.
+  - eapply inv_sender; try exact I; try reflexivity.
+    + unfold chan_ok. rewrite Hl, Hi. apply I.
+    + rewrite Hi. auto.
+    + rewrite Hi. auto.
+    + auto.
+    + auto.
+    + rewrite A2, A3. auto.
+    + rewrite A2, A3. auto.
+Qed.
+
+Lemma inv_set_error F eof err s c e :
+  Inv F eof err s c ->
+  exists c', step s (SetError e) = Ok (set_woken (set_pl s (PStream c')) (woken s || recv_reg c)) /\
+             ch_err c' = Some e /\
+             Inv F eof true (set_woken (set_pl s (PStream c')) (woken s || recv_reg c)) c'.
+Proof.
+  intros I. destruct (set_error_spec c e) as (c' & Hf & Hi & Hl & A1 & A2 & A3 & A4 & Hr).
+  exists c'. split; [|split; [assumption|]].
+  - cbn [step]. unfold on_chan. rewrite (i_pl _ _ _ _ _ I), Hf. reflexivity.
+  - eapply inv_sender; try exact I; try reflexivity.
+    + unfold chan_ok. rewrite Hl, Hi. apply I.
+    + rewrite Hi. auto.
+    + rewrite Hi. auto.
+    + rewrite A1. auto.
+    + auto.
+    + rewrite A1. apply I.
+    + intros _. right. rewrite A3. discriminate.
+    + discriminate.
+Qed.
+
+Lemma inv_take F eof err s c :
+  Inv F eof err s c -> Inv F eof err (step_take s) c.
+Proof.
+  intros I. unfold step_take. destruct (borrowed (rd s)); [assumption|].
+  cbn [pl_take fst]. destruct I. constructor; proj; auto.
+Qed.
+
+Lemma content_mode_loop s c F : content s c F -> is_loop (rd s) = true -> md s = MLoop.
+Proof. unfold content. destruct (md s), (rd s); try discriminate; try contradiction; auto. Qed.
+
+Lemma content_mode_all s c F : content s c F -> is_all (rd s) = true -> md s = MAll.
+Proof. unfold content. destruct (md s), (rd s); try discriminate; try contradiction; auto. Qed.
+
+Lemma not_done_loop r : is_loop r = true -> forall e, r <> Done e.
+Proof. destruct r; try discriminate; intros _ e H; discriminate. Qed.
+Lemma not_done_all r : is_all r = true -> forall e, r <> Done e.
+Proof. destruct r; try discriminate; intros _ e H; discriminate. Qed.
+
+(* facts about a running reader that follow from the invariant *)
+Lemma inv_eof_running F eof err s c :
+  Inv F eof err s c -> running (rd s) = true -> f_eof c = true -> eof = true.
+Proof.
+  intros I Hr H. destruct (i_eof1 _ _ _ _ _ I H) as [X|(e & X)]; [assumption|].
+  rewrite X in Hr. discriminate.
+Qed.
+
+Lemma inv_err_running F eof err s c :
+  Inv F eof err s c -> running (rd s) = true -> f_error c = true -> ch_err c <> None.
+Proof.
+  intros I Hr H. destruct (i_err1 _ _ _ _ _ I H) as [X|(e & X)]; [assumption|].
+  rewrite X in Hr. discriminate.
+Qed.
+
+Lemma running_loop r : is_loop r = true -> running r = true.
+Proof. destruct r; auto; discriminate. Qed.
+Lemma running_all r : is_all r = true -> running r = true.
+Proof. destruct r; auto; discriminate. Qed.
+
+Lemma inv_poll_loop F eof err s c :
+  Inv F eof err s c -> is_loop (rd s) = true ->
+  exists s' c', step s Poll = Ok s' /\ Inv F eof err s' c' /\ md s' = md s.
+Proof.
+  intros I Hl.
+  pose proof (content_mode_loop _ _ _ (i_content _ _ _ _ _ I) Hl) as Hm.
+  pose proof (running_loop _ Hl) as Hrun.
+  pose proof (poll_spec_loop s c (i_pl _ _ _ _ _ I) (i_ok _ _ _ _ _ I) Hl) as P.
+  pose proof (i_content _ _ _ _ _ I) as C. unfold content in C. rewrite Hm in C.
+  assert (C' : got s ++ items c = F) by (destruct (rd s); try discriminate; exact C). clear C.
+  destruct (items c) as [|d r] eqn:Hi.
+  - (* no chunk *)
+    unfold loop_out in P. destruct (ch_err c) as [e|] eqn:He.
+    + eexists. exists (set_eof (set_err c None)). split; [exact P|]. split; [|reflexivity].
+      constructor; proj.
+      * reflexivity.
+      * unfold chan_ok. proj. apply I.
+      * unfold content. proj. rewrite Hm, Hi. assumption.
+      * intros _. right. eauto.
+      * reflexivity.
+      * intros _. right. eauto.
+      * intros H. destruct (i_err2 _ _ _ _ _ I H) as (X & _). congruence.
+      * discriminate.
+    + destruct (f_eof c || f_error c) eqn:Hf.
+      * eexists. exists c. split; [exact P|]. split; [|reflexivity].
+        constructor; proj.
+        -- reflexivity.
+        -- apply I.
+        -- unfold content. proj. rewrite Hm, Hi. assumption.
+        -- intros H. left. eapply inv_eof_running; eassumption.
+        -- apply I.
+        -- intros H. exfalso. exact (inv_err_running _ _ _ _ _ I Hrun H He).
+        -- apply I.
+        -- discriminate.
+      * apply orb_false_iff in Hf as (Hf1 & Hf2).
+        eexists. exists (set_recv c true). split; [exact P|]. split; [|reflexivity].
+        constructor; proj.
+        -- reflexivity.
+        -- unfold chan_ok. proj. apply I.
+        -- unfold content. proj. rewrite Hm, Hi. assumption.
+        -- rewrite Hf1. discriminate.
+        -- apply I.
+        -- rewrite Hf2. discriminate.
+        -- apply I.
+        -- intros _. right. split; [reflexivity|]. unfold can_progress. proj. rewrite Hi, He, Hf1, Hf2. reflexivity.
+  - destruct P as (c1 & Hpop & P).
+    eexists. exists c1. split; [exact P|]. split; [|reflexivity].
+    pose proof Hpop as (Q1 & Q2 & (Q3 & Q4 & Q5 & Q6) & Q7).
+    constructor; proj.
+    + reflexivity.
+    + eapply chan_ok_popped; [apply I|eassumption].
+    + unfold content. proj. rewrite Hm. rewrite Hi in Q1. injection Q1 as <-.
+      rewrite <- app_assoc. exact C'.
+    + rewrite Q3. intros H. left. eapply inv_eof_running; eassumption.
+    + rewrite Q3. apply I.
+    + rewrite Q4, Q5. intros H. left. eapply inv_err_running; eassumption.
+    + rewrite Q4, Q5. apply I.
+    + discriminate.
+Qed.
+
+Lemma andb_fresh_nil r (l : list bytes) : fresh r && isnil l = true -> fresh r = true /\ l = [].
+Proof. intros H. apply andb_true_iff in H as (A & B). split; [assumption|]. destruct l; [reflexivity|discriminate]. Qed.
+
+Lemma inv_poll_all F eof err s c :
+  Inv F eof err s c -> is_all (rd s) = true ->
+  exists s' c', step s Poll = Ok s' /\ Inv F eof err s' c' /\ md s' = md s.
+Proof.
+  intros I Ha.
+  pose proof (content_mode_all _ _ _ (i_content _ _ _ _ _ I) Ha) as Hm.
+  pose proof (running_all _ Ha) as Hrun.
+  destruct (poll_spec_all s c (i_pl _ _ _ _ _ I) (i_ok _ _ _ _ _ I) Ha) as (c0 & Hd & P).
+  assert (C1 : acc_of (rd s) ++ concat (items c) = concat F /\ (fresh (rd s) = true -> items c = F)).
+  { pose proof (i_content _ _ _ _ _ I) as C. unfold content in C. rewrite Hm in C.
+    destruct (rd s); try discriminate; cbn [acc_of fresh app].
+    - destruct C as (_ & <-). auto.
+    - destruct C as (_ & <-). auto.
+    - destruct C as (_ & C). split; [assumption|discriminate]. }
+  destruct C1 as (C1 & C2).
+  pose proof Hd as (D1 & D2 & (D3 & D4 & D5 & D6) & D7).
+  unfold all_out in P.
+  destruct (ch_err c) as [e|] eqn:He.
+  - cbv beta iota in P.
+    eexists. exists (set_eof (set_err c0 None)). split; [exact P|]. split; [|reflexivity].
+    constructor; proj.
+    + reflexivity.
+    + unfold chan_ok. proj. rewrite D1, D2. reflexivity.
+    + unfold content. proj. rewrite Hm. reflexivity.
+    + intros _. right. eauto.
+    + reflexivity.
+    + intros _. right. eauto.
+    + intros H. destruct (i_err2 _ _ _ _ _ I H) as (X & _). congruence.
+    + discriminate.
+  - destruct (f_eof c || f_error c) eqn:Hf.
+    + destruct (fresh (rd s) && isnil (items c)) eqn:Hn; cbv beta iota in P.
+      * eexists. exists c0. split; [exact P|]. split; [|reflexivity].
+        constructor; proj.
+        -- reflexivity.
+        -- eapply chan_ok_drained; eassumption.
+        -- unfold content. proj. rewrite Hm. reflexivity.
+        -- intros _. right. eauto.
+        -- rewrite D3. apply I.
+        -- intros _. right. eauto.
+        -- intros H. destruct (i_err2 _ _ _ _ _ I H) as (X & Y). split; congruence.
+        -- discriminate.
+      * eexists. exists c0. split; [exact P|]. split; [|reflexivity].
+        constructor; proj.
+        -- reflexivity.
+        -- eapply chan_ok_drained; eassumption.
+        -- unfold content. proj. rewrite Hm. eexists. split; [reflexivity|].
+           rewrite D1. cbn [concat]. rewrite app_nil_r. exact C1.
+        -- rewrite D3. intros H. left. eapply inv_eof_running; eassumption.
+        -- rewrite D3. apply I.
+        -- rewrite D4. intros H. exfalso. exact (inv_err_running _ _ _ _ _ I Hrun H He).
+        -- intros H. destruct (i_err2 _ _ _ _ _ I H) as (X & Y). split; congruence.
+        -- discriminate.
+    + apply orb_false_iff in Hf as (Hf1 & Hf2).
+      assert (W : recv_reg (set_recv c0 true) = true /\ can_progress (set_recv c0 true) = false).
+      { split; [reflexivity|]. unfold can_progress. proj. rewrite D1, D5, ?He, D3, D4, Hf1, Hf2. reflexivity. }
+      destruct (fresh (rd s) && isnil (items c)) eqn:Hn; cbv beta iota in P.
+      * apply andb_fresh_nil in Hn as (Hn1 & Hn2).
+        eexists. exists (set_recv c0 true). split; [exact P|]. split; [|reflexivity].
+        constructor; proj.
+        -- reflexivity.
+        -- unfold chan_ok. proj. rewrite D1, D2. reflexivity.
+        -- unfold content. proj. rewrite Hm. split; [reflexivity|]. rewrite D1, <- (C2 Hn1), Hn2. reflexivity.
+        -- rewrite D3, Hf1. discriminate.
+        -- rewrite D3. apply I.
+        -- rewrite D4, Hf2. discriminate.
+        -- intros H. destruct (i_err2 _ _ _ _ _ I H) as (X & Y). split; congruence.
+        -- intros _. right. exact W.
+      * eexists. exists (set_recv c0 true). split; [exact P|]. split; [|reflexivity].
+        constructor; proj.
+        -- reflexivity.
+        -- unfold chan_ok. proj. rewrite D1, D2. reflexivity.
+        -- unfold content. proj. rewrite Hm. split; [reflexivity|].
+           rewrite D1. cbn [concat]. rewrite app_nil_r. exact C1.
+        -- rewrite D3, Hf1. discriminate.
+        -- rewrite D3. apply I.
+        -- rewrite D4, Hf2. discriminate.
+        -- intros H. destruct (i_err2 _ _ _ _ _ I H) as (X & Y). split; congruence.
+        -- intros _. right. exact W.
+Qed.
+
+Lemma rd_cases r : is_loop r = true \/ is_all r = true \/ exists x, r = Done x.
+Proof. destruct r; cbn; eauto. Qed.
+
+Lemma step_poll_done s x : rd s = Done x -> step s Poll = Ok s.
+Proof. intros H. cbn [step]. unfold step_poll. rewrite H. reflexivity. Qed.
+
+(* every operation keeps the invariant and succeeds: no panic, the fuel of read_all's loop suffices *)
+Lemma inv_step F eof err s c o :
+  Inv F eof err s c ->
+  exists s' c', step s o = Ok s' /\
+                Inv (F ++ fed_ops [o]) (eof || is_feed_eof o) (err || is_set_error o) s' c' /\
+                md s' = md s.
+Proof.
+  intros I. destruct o as [d| |e| |]; cbn [fed_ops is_feed_eof is_set_error];
+    rewrite ?app_nil_r, ?orb_false_r, ?orb_true_r.
+  - destruct (inv_feed _ _ _ _ _ d I) as (c' & H1 & H2). eauto.
+  - destruct (inv_feed_eof _ _ _ _ _ I) as (c' & H1 & H2). eauto.
+  - destruct (inv_set_error _ _ _ _ _ e I) as (c' & H1 & _ & H2). eauto.
+  - destruct (rd_cases (rd s)) as [H|[H|(x & H)]].
+    + eapply inv_poll_loop; eassumption.
+    + eapply inv_poll_all; eassumption.
+    + exists s, c. split; [eapply step_poll_done; eassumption|]. auto.
+  - exists (step_take s), c. split; [reflexivity|]. split; [apply inv_take; assumption|].
+    unfold step_take. destruct (borrowed (rd s)); reflexivity.
+Qed.
+
+Lemma fed_ops_app a b : fed_ops (a ++ b) = fed_ops a ++ fed_ops b.
+Proof.
+  induction a as [|o r IH]; [reflexivity|]. cbn [app fed_ops]. destruct o; rewrite IH; reflexivity.
+Qed.
+
+Definition err_set (ops : list op) : bool := existsb is_set_error ops.
+
+Lemma inv_run ops : forall F eof err s c,
+  Inv F eof err s c ->
+  exists s' c', run_from s ops = Ok s' /\
+                Inv (F ++ fed_ops ops) (eof || eof_fed ops) (err || err_set ops) s' c' /\ md s' = md s.
+Proof.
+  induction ops as [|o r IH]; intros F eof err s c I.
+  - exists s, c. cbn [run_from fed_ops eof_fed err_set existsb]. rewrite app_nil_r, !orb_false_r. auto.
+  - destruct (inv_step _ _ _ _ _ o I) as (s1 & c1 & H1 & I1 & M1).
+    destruct (IH _ _ _ _ _ I1) as (s2 & c2 & H2 & I2 & M2).
+    exists s2, c2. cbn [run_from]. rewrite H1. cbn [bind]. split; [assumption|]. split; [|congruence].
+    assert (E1 : F ++ fed_ops (o :: r) = (F ++ fed_ops [o]) ++ fed_ops r).
+    { change (o :: r) with ([o] ++ r). rewrite fed_ops_app, app_assoc. reflexivity. }
+    assert (E2 : eof || eof_fed (o :: r) = (eof || is_feed_eof o) || eof_fed r).
+    { unfold eof_fed. cbn [existsb]. apply orb_assoc. }
+    assert (E3 : err || err_set (o :: r) = (err || is_set_error o) || err_set r).
+    { unfold err_set. cbn [existsb]. apply orb_assoc. }
+    rewrite E1, E2, E3. exact I2.
+Qed.
+
+Lemma inv_init m first size :
+  exists c, Inv (first_chunks first) false false (init_stream m first size) c.
+Proof.
+  unfold init_stream, from_stream. destruct first as [|b t].
+  - exists (chan_new size). constructor; proj; try discriminate; try reflexivity.
+    + unfold content. proj. destruct m; cbn [start_of]; auto.
+    + auto.
+    + destruct m; discriminate.
+  - destruct (feed_data_spec (chan_new size) (b :: t)) as (c' & Hf & Hi & Hl & (A1 & A2 & A3 & A4) & Hr).
+    exists c'. rewrite Hf. cbn [fst]. constructor; proj.
+    + reflexivity.
+    + unfold chan_ok. rewrite Hl, Hi. cbn. lia.
+    + unfold content. proj. rewrite Hi. destruct m; cbn [start_of first_chunks app]; auto.
+    + rewrite A1. discriminate.
+    + discriminate.
+    + rewrite A2. discriminate.
+    + intros _. rewrite A2, A3. auto.
+    + destruct m; discriminate.
+Qed.
+
+(* the invariant in every reachable state *)
+Lemma reach m first size ops :
+  exists s c, run m first size ops = Ok s /\
+              Inv (fed_chunks first ops) (eof_fed ops) (err_set ops) s c /\ md s = m.
+Proof.
+  destruct (inv_init m first size) as (c0 & I0).
+  destruct (inv_run ops _ _ _ _ _ I0) as (s & c & H & I & M).
+  exists s, c. split; [exact H|]. split; [exact I|]. rewrite M. reflexivity.
+Qed.
+
+Lemma reach_inv m first size ops s :
+  run m first size ops = Ok s ->
+  exists c, Inv (fed_chunks first ops) (eof_fed ops) (err_set ops) s c /\ md s = m.
+Proof.
+  intros H. destruct (reach m first size ops) as (s' & c & H' & I & M).
+  rewrite H in H'. injection H' as <-. eauto.
+Qed.
